@@ -105,6 +105,47 @@ def _loop_returns(stmts: list[ast.stmt], on_return) -> list[ast.stmt]:
     return out
 
 
+def _loose_jumps(stmts: list[ast.stmt]) -> bool:
+    """break / continue that would bind to an enclosing loop if the statements were moved into one"""
+    for st in stmts:
+        if isinstance(st, (ast.Break, ast.Continue)):
+            return True
+        if isinstance(st, (ast.For, ast.AsyncFor, ast.While)):
+            if _loose_jumps(st.orelse):
+                return True
+            continue
+        for fld in ("body", "orelse", "finalbody"):
+            blk = getattr(st, fld, None)
+            if isinstance(blk, list) and blk and isinstance(blk[0], ast.stmt) and _loose_jumps(blk):
+                return True
+        for h in getattr(st, "handlers", []) or []:
+            if _loose_jumps(h.body):
+                return True
+    return False
+
+
+def _before_breaks(stmts: list[ast.stmt], moved: list[ast.stmt]) -> None:
+    """inserts a copy of `moved` in front of every `break` that belongs to the loop whose body is `stmts`"""
+    i = 0
+    while i < len(stmts):
+        st = stmts[i]
+        if isinstance(st, ast.Break):
+            cp = _recopy(moved)
+            stmts[i:i] = cp
+            i += len(cp) + 1
+            continue
+        if isinstance(st, (ast.For, ast.AsyncFor, ast.While)):
+            _before_breaks(st.orelse, moved)
+        else:
+            for fld in ("body", "orelse", "finalbody"):
+                blk = getattr(st, fld, None)
+                if isinstance(blk, list) and blk and isinstance(blk[0], ast.stmt):
+                    _before_breaks(blk, moved)
+            for h in getattr(st, "handlers", []) or []:
+                _before_breaks(h.body, moved)
+        i += 1
+
+
 def exit_rewrite(block: list[ast.stmt], on_return) -> tuple[list[ast.stmt], bool]:
     """Generalisation of inline_stmt.single_exit: rewrites a helper body so that it has no `return`.
 
@@ -148,6 +189,16 @@ def exit_rewrite(block: list[ast.stmt], on_return) -> tuple[list[ast.stmt], bool
                     st.orelse = o
                     out.append(st)
                     return out, True
+                if ot:
+                    # search loop: `break` on a hit, `else: return <default>`.  What follows the loop runs exactly when it was left
+                    # by break: it is moved in front of every break (no flag, so no infeasible paths in the CFG).
+                    r, rt = exit_rewrite(rest, on_return)
+                    if _loose_jumps(r):
+                        raise Unsupported("break / continue after a search loop")
+                    _before_breaks(st.body, r)
+                    st.orelse = o
+                    out.append(st)
+                    return out, rt
                 raise Unsupported("return in the else block of a loop")
             if _own_breaks(st):
                 raise Unsupported("loop with returns and breaks")
@@ -286,6 +337,37 @@ class DeepInliner(Inliner):
                             n._src = src[1]._src  # type: ignore[attr-defined]  # keep pointing at the real source
                 return prefix, body
         return super()._try(ctx, call, form, taken, origin, stack)
+
+    # ------------------------------------------------------------------ functools.partial
+    def _note_partial(self, s: ast.stmt) -> None:
+        """`f = partial(g, a, k=v)` is remembered; calls `f(x)` are rewritten to `g(a, x, k=v)` (so that the inliner sees g)."""
+        if isinstance(s, ast.Assign) and len(s.targets) == 1 and isinstance(s.targets[0], ast.Name) and isinstance(s.value, ast.Call):
+            fn = s.value.func
+            if ((isinstance(fn, ast.Name) and fn.id == "partial") or (isinstance(fn, ast.Attribute) and fn.attr == "partial")) and s.value.args and not any(isinstance(a, ast.Starred) for a in s.value.args) and all(k.arg is not None for k in s.value.keywords):
+                self.__dict__.setdefault("partials", {})[s.targets[0].id] = s.value
+
+    def _apply_partials(self, s: ast.stmt) -> None:
+        parts = self.__dict__.get("partials")
+        if not parts or isinstance(s, (ast.FunctionDef, ast.ClassDef)):
+            return
+
+        class Tr(ast.NodeTransformer):
+            def visit_Lambda(self, node):  # noqa: N802
+                return node
+
+            def visit_Call(self, node):  # noqa: N802
+                self.generic_visit(node)
+                if isinstance(node.func, ast.Name) and node.func.id in parts and not any(isinstance(a, ast.Starred) for a in node.args):
+                    p = parts[node.func.id]
+                    given = {k.arg for k in node.keywords}
+                    new = ast.Call(func=_recopy(p.args[0]), args=[_recopy(a) for a in p.args[1:]] + node.args, keywords=[ast.keyword(arg=k.arg, value=_recopy(k.value)) for k in p.keywords if k.arg not in given] + node.keywords)
+                    return ast.copy_location(new, node)
+                return node
+
+        for fld in ("value", "test", "iter"):
+            v = getattr(s, fld, None)
+            if isinstance(v, ast.AST):
+                setattr(s, fld, Tr().visit(v))
 
     def _ctor_init(self, ctx: FuncInfo, s: ast.stmt, stack):
         """(`__init__` FuncInfo, target name) if `s` is `x = RepoClass(args)` with a user-written constructor"""
@@ -440,6 +522,8 @@ class DeepInliner(Inliner):
         queue = list(stmts)
         while queue:
             s = queue.pop(0)
+            self._note_partial(s)
+            self._apply_partials(s)
             if isinstance(s, ast.FunctionDef):
                 self.__dict__.setdefault("local_defs", {})[s.name] = s
                 out.append(s)
